@@ -194,7 +194,7 @@ def gen_valid(rng, n):
 # hex digits of both cases, protocol characters, and the characters next to the three hex ranges ('/' ':' '@' 'G' '`' 'g'):
 # a hand-written nibble decoder goes wrong exactly there
 SUBST_CHARS = [ord(c) for c in "0123456789ABCDEFabcdef"] + [ord(":"), 10, ord("A"), ord("G"), ord(" "), 0, 0xFF, ord("x"),
-                                                            ord("/"), ord("@"), ord("`"), ord("g")]
+                                                            ord("/"), ord("@"), ord("`"), ord("g"), 13, 9]
 
 
 def mutations_of(f):
@@ -206,7 +206,7 @@ def mutations_of(f):
                 yield "subst", f[:i] + bytes([c]) + f[i + 1:]
         yield "delete", f[:i] + f[i + 1:]
     for i in range(len(f) + 1):
-        for c in [ord("0"), ord("F"), ord("a"), ord(":"), 10, ord("A")]:
+        for c in [ord("0"), ord("F"), ord("a"), ord(":"), 10, ord("A"), 13, ord(" "), 0]:
             yield "insert", f[:i] + bytes([c]) + f[i:]
     for i in range(len(f)):
         yield "trunc", f[:i]
@@ -262,7 +262,9 @@ def gen_wrong(rng, n):
             cls = "bad-chk"
         k = rng.below(8) + 1
         react = [[] for _ in range(k - 1)] + [chunked(rng, data, 3)]
-        out.append(Case(cls, [call(kind, addr, "n")], react=react, cfg=rng.below(4)))
+        # a frame for another register is never this register's value: the read fails (C02: no guess)
+        exp = "ERR" if cls == "wrong-addr" and a2 != addr else None
+        out.append(Case(cls, [call(kind, addr, "n", exp)], react=react, cfg=rng.below(4)))
     return out
 
 
@@ -599,6 +601,30 @@ def gen_faults(rng, n_random):
     return out
 
 
+def gen_late_flagged(rng, n):
+    """C01/C04: while register Y is read, a checksum-valid answer for ANOTHER register X arrives with a non-zero flag
+    (a late refusal); the next call reads X on the busy line and gets no answer at all (or a fresh good one): nothing
+    received for X with flag 0 except that fresh frame may become X's value"""
+    out = []
+    for i in range(n):
+        kind = rng.choice(KINDS)
+        y = rand_addr(rng)
+        x = (y + 1 + rng.below(200)) % 65536
+        flag = rng.choice([1, 2, 4, 8, 0x10, 0xFF])
+        vy, vx = rng.bytes(2), rng.bytes(2)
+        late = get_resp(x, rng.bytes(rng.below(3)), flag=flag)
+        r1 = chunked(rng, (late + get_resp(y, vy)) if i % 2 == 0 else late, 3)
+        react = [r1, []] if i % 2 == 0 else [r1, chunked(rng, get_resp(y, vy))]
+        if i % 3 == 0:      # the second call is answered properly
+            react2 = [chunked(rng, get_resp(x, vx))]
+            calls = [call(kind, y, "n", expect_for(kind, vy)), call(kind, x, "b", expect_for(kind, vx))]
+        else:               # ... or not at all
+            react2 = [[] for _ in range(8)]
+            calls = [call(kind, y, "n", expect_for(kind, vy)), call(kind, x, "b", "ERR")]
+        out.append(Case("late-flagged", calls, react=react + react2, cfg=rng.below(4)))
+    return out
+
+
 def gen_async_burst(rng, n):
     """C03/C04: many asynchronous frames between a command and its answer (a device in async mode streams register
     updates): they are skipped, the call completes in that attempt with exactly one frame written"""
@@ -713,6 +739,7 @@ def generate(tier, seed):
     cases += gen_faults(rng, 2000 if q else 12000)
     cases += gen_cut_zero_check(rng, 8 if q else 40)
     cases += gen_async_burst(rng, 60 if q else 300)
+    cases += gen_late_flagged(rng, 120 if q else 600)
     cases += gen_big_noise(rng, 3 if q else 12)
     cases += gen_buffer_boundary(rng, q)
     return cases
